@@ -46,6 +46,8 @@ type HarnessSpec struct {
 	// reference function "import/path.Name" with the same signature, which another
 	// harness of the same property proves equal to the real function (assume-guarantee).
 	Summaries map[string]string `json:"summaries"`
+	// KFInjective: assume that Keccak-f applications agreeing on their first 256 output bits have equal inputs.
+	KFInjective bool `json:"kf_injective"`
 	ufSet     map[string]bool
 	mapPerm   func(p *Path, es []*MapEntry) []*MapEntry
 }
